@@ -919,15 +919,15 @@ fn run_trunc(ctx: &Ctx) {
 
 // (3) field-directed mutations of valid packets
 fn run_mutations(ctx: &Ctx) {
-    ctx.run_prop("mutations", ctx.tier.pick(300_000, 6_000_000), mutation_case_strategy, check_multi);
+    ctx.run_prop("mutations", ctx.tier.pick(600_000, 6_000_000), mutation_case_strategy, check_multi);
 }
 // (4) datagram lengths around the quoting budget
 fn run_boundary(ctx: &Ctx) {
-    ctx.run_prop("quote-boundary", ctx.tier.pick(60_000, 1_200_000), boundary_case_strategy, check_case);
+    ctx.run_prop("quote-boundary", ctx.tier.pick(120_000, 1_200_000), boundary_case_strategy, check_case);
 }
 // (5) random datagrams up to the jumbo buffer size
 fn run_random(ctx: &Ctx) {
-    ctx.run_prop("random", ctx.tier.pick(800_000, 16_000_000), random_case_strategy, check_case);
+    ctx.run_prop("random", ctx.tier.pick(1_600_000, 16_000_000), random_case_strategy, check_case);
 }
 
 fn post(ctx: &Ctx) {
